@@ -1,7 +1,7 @@
 //! Implementation-only checks (no model involved): address/identity facts (C11), determinism and
 //! capacity facts (C13), Send/Sync and concurrent readers (C18).
 
-use crate::exec::{guard, Exec, Pay, CLONE_TAG};
+use crate::exec::{fid, guard, Exec, Pay, CLONE_TAG};
 use crate::gen::{Cfg, Gen, Hooks, Profile};
 use indextree::*;
 use std::collections::BTreeMap;
@@ -66,6 +66,12 @@ struct Chk {
     hist: u64,
     step: u64,
     before: Option<(Arena<Pay>, usize)>,
+    /// Own bookkeeping of live ids of `cur` / `alt`: exactly the ids returned by
+    /// `new_node`/`append_value`, minus those the harness itself removed.
+    mine: Vec<NodeId>,
+    mine_alt: Option<Vec<NodeId>>,
+    /// Ids about to be removed by the pending `rem`/`rst` command (taken before the call).
+    doomed: Vec<NodeId>,
 }
 
 impl Chk {
@@ -77,18 +83,24 @@ impl Chk {
         }
     }
 
-    fn c11(&mut self, ar: &mut Arena<Pay>, issued: &[NodeId]) {
+    fn c11(&mut self, ar: &mut Arena<Pay>, mine: &[NodeId]) {
         let count = ar.count();
         self.ck("C11", count == ar.iter().count() && count == ar.as_slice().len(), || "count/iter/as_slice lengths differ".into());
         self.ck("C11", ar.is_empty() == (count == 0), || "is_empty != (count==0)".into());
-        let live: Vec<NodeId> = issued.iter().copied().filter(|id| !id.is_removed(ar)).collect();
-        for id in live {
+        for &id in mine {
+            if ar.get(id).is_none() {
+                self.ck("C11", false, || format!("get({}) is None for an id the harness never removed", fid(id)));
+                continue;
+            }
+            self.ck("C11", !id.is_removed(ar), || {
+                format!("id {} returned at creation reports is_removed()==true while the harness never removed it", fid(id))
+            });
             let p1 = ar.get(id).map(|r| r as *const Node<Pay>);
             let p2 = &ar[id] as *const Node<Pay>;
             let p3 = ar.get_mut(id).map(|r| r as *mut Node<Pay> as *const Node<Pay>);
             self.ck("C11", p1 == Some(p2) && p3 == Some(p2), || format!("get/index/get_mut addresses differ for {}", id));
-            let r = &ar[id];
-            self.ck("C11", ar.get_node_id(r) == Some(id), || format!("get_node_id(&arena[{}]) = {:?}", id, ar.get_node_id(&ar[id])));
+            let r = ar.get(id).unwrap();
+            self.ck("C11", ar.get_node_id(r) == Some(id), || format!("get_node_id(arena.get({}).unwrap()) = {:?}", fid(id), ar.get_node_id(&ar[id]).map(fid)));
             self.ck("C11", ar.get_node_id_at(NonZeroUsize::from(id)) == Some(id), || format!("get_node_id_at({}) wrong", id));
             let r = &ar[id];
             let pos = ar.iter().position(|n| std::ptr::eq(n, r));
@@ -153,6 +165,18 @@ fn mutating(cmd: &str) -> bool {
 
 impl Hooks for Chk {
     fn pre(&mut self, ex: &mut Exec, cmd: &str) {
+        self.doomed.clear();
+        let mut t = cmd.split(' ');
+        if let (Some(op @ ("rem" | "rst")), Some(h)) = (t.next(), t.next()) {
+            if let Some(&id) = h.parse::<usize>().ok().and_then(|h| ex.cur.issued.get(h)) {
+                let ar = &ex.cur.arena;
+                self.doomed = if op == "rem" {
+                    vec![id]
+                } else {
+                    guard(|| id.descendants(ar).take(4 * ar.count() + 8).collect()).unwrap_or_else(|_| vec![id])
+                };
+            }
+        }
         if cmd.starts_with("reserve") || cmd == "clear" {
             self.before = Some((scratch_clone(&ex.cur.arena), ex.cur.arena.capacity()));
         }
@@ -162,6 +186,8 @@ impl Hooks for Chk {
         if let Some(n) = cmd.strip_prefix("hist ") {
             self.hist = n.parse().unwrap_or(0);
             self.step = 0;
+            self.mine.clear();
+            self.mine_alt = None;
             for n in [0usize, 1, 7, 100] {
                 let cap = Arena::<Pay>::with_capacity(n).capacity();
                 self.ck("C13", cap >= n, || format!("with_capacity({}).capacity() = {}", n, cap));
@@ -188,8 +214,36 @@ impl Hooks for Chk {
                     self.ck("C13", ar.count() == 0 && ar.is_empty(), || "arena not empty after clear".into());
                 }
             }
-            let issued = ex.cur.issued.clone();
-            self.c11(ar, &issued);
+            let op = cmd.split(' ').next().unwrap_or("");
+            match op {
+                "new" | "appv" if obs.starts_with("r id ") => {
+                    if let Some(&new_id) = ex.cur.issued.last() {
+                        self.mine.push(new_id);
+                        let at = ar.get_node_id_at(NonZeroUsize::from(new_id));
+                        self.ck("C11", at == Some(new_id), || {
+                            format!("get_node_id_at of the id {} just returned by `{}` = {:?}", fid(new_id), cmd, at.map(fid))
+                        });
+                        let back = ar.get(new_id).and_then(|n| ar.get_node_id(n));
+                        self.ck("C11", back == Some(new_id), || {
+                            format!("get_node_id(&arena[id]) of the id {} just returned by `{}` = {:?}", fid(new_id), cmd, back.map(fid))
+                        });
+                    }
+                }
+                "rem" | "rst" if obs == "r ok" => {
+                    let doomed = std::mem::take(&mut self.doomed);
+                    self.mine.retain(|id| !doomed.contains(id));
+                }
+                "clear" => self.mine.clear(),
+                "fork" if obs == "r ok" => self.mine_alt = Some(self.mine.clone()),
+                "swap" => {
+                    if let Some(a) = self.mine_alt.as_mut() {
+                        std::mem::swap(&mut self.mine, a);
+                    }
+                }
+                _ => {}
+            }
+            let mine = self.mine.clone();
+            self.c11(ar, &mine);
         });
         self.ck("SELF", r.is_ok(), || format!("checker panicked after `{}`", cmd));
     }
@@ -210,6 +264,9 @@ pub fn run(seed: u64, hists: u64, len: usize, mut out: impl Write) -> io::Result
         hist: 0,
         step: 0,
         before: None,
+        mine: Vec::new(),
+        mine_alt: None,
+        doomed: Vec::new(),
     };
     let cfg = Cfg { seed, hists, len, profile: Profile::Core, max_nodes: 20, start: 0, prefix: Vec::new() };
     let mut g = Gen::new(cfg, Box::new(io::sink()), Box::new(io::sink()), chk);
